@@ -33,9 +33,38 @@ type refType struct {
 }
 
 var (
-	typeAlias = map[*types.TypeName]string{}
-	funcAlias = map[*types.Func]string{}
+	typeAlias     = map[*types.TypeName]string{}
+	funcAlias     = map[*types.Func]string{}
+	funcAliasRecv = map[*types.Func]string{} // a reference method now written as a function: its receiver ("*T")
+	varAlias      = map[*types.Var]string{}  // a renamed package-level variable -> reference name
 )
+
+// globalRoles: package-level variables the rules name; re-attached by type when the name is gone and
+// exactly one variable of that type is left in the package.
+var globalRoles = []struct{ pkg, name, typeStr string }{
+	{pkgWS, "wsConnectedClients", "*github.com/prometheus/client_golang/prometheus.GaugeVec"},
+	{pkgModels, "hagallSessionCount", "*github.com/prometheus/client_golang/prometheus.GaugeVec"},
+}
+
+func varDisplay(v *types.Var) string {
+	if a, ok := varAlias[v]; ok {
+		return a
+	}
+	return v.Name()
+}
+
+// lookupGlobal: the package-level variable playing the named role.
+func lookupGlobal(pk *types.Package, name string) types.Object {
+	if o := pk.Scope().Lookup(name); o != nil {
+		return o
+	}
+	for v, a := range varAlias {
+		if a == name && v.Pkg() == pk {
+			return v
+		}
+	}
+	return nil
+}
 
 func typeDisplay(tn *types.TypeName) string {
 	if a, ok := typeAlias[tn]; ok {
@@ -67,9 +96,23 @@ func aliasedTypeString(t types.Type) string {
 	return s
 }
 
-func sigString(sig *types.Signature) string {
+func sigString(sig *types.Signature) string { return sigStringFrom(sig, 0) }
+
+func recvTypeString(t types.Type) string {
+	ptr := ""
+	if pt, ok := t.(*types.Pointer); ok {
+		t, ptr = pt.Elem(), "*"
+	}
+	if n, ok := t.(*types.Named); ok {
+		return ptr + typeDisplay(n.Obj())
+	}
+	return ptr + t.String()
+}
+
+// sigStringFrom: parameter types from index `from` on, and result types.
+func sigStringFrom(sig *types.Signature, from int) string {
 	var ps, rs []string
-	for i := 0; i < sig.Params().Len(); i++ {
+	for i := from; i < sig.Params().Len(); i++ {
 		ps = append(ps, aliasedTypeString(sig.Params().At(i).Type()))
 	}
 	for i := 0; i < sig.Results().Len(); i++ {
@@ -219,9 +262,27 @@ func unexportedTypes(pk *packages.Package) []*types.TypeName {
 func resolveNames(pkgs []*packages.Package) {
 	typeAlias = map[*types.TypeName]string{}
 	funcAlias = map[*types.Func]string{}
+	funcAliasRecv = map[*types.Func]string{}
+	varAlias = map[*types.Var]string{}
 	byPath := map[string]*packages.Package{}
 	for _, pk := range pkgs {
 		byPath[pk.PkgPath] = pk
+	}
+	// package-level variables
+	for _, g := range globalRoles {
+		pk := byPath[g.pkg]
+		if pk == nil || pk.Types == nil || pk.Types.Scope().Lookup(g.name) != nil {
+			continue
+		}
+		var cands []*types.Var
+		for _, nm := range pk.Types.Scope().Names() {
+			if v, ok := pk.Types.Scope().Lookup(nm).(*types.Var); ok && types.TypeString(v.Type(), qual) == g.typeStr {
+				cands = append(cands, v)
+			}
+		}
+		if len(cands) == 1 {
+			varAlias[cands[0]] = g.name
+		}
 	}
 	// types
 	refTypeNames := map[string]map[string]bool{}
@@ -267,9 +328,18 @@ func resolveNames(pkgs []*packages.Package) {
 		decls := declaredFuncs(pk)
 		present := false
 		var cands []*types.Func
+		asFunc := map[*types.Func]bool{}
 		for f := range decls {
 			sig := f.Type().(*types.Signature)
 			rs := recvString(sig)
+			if rs == "" && rf.Recv != "" && sig.Params().Len() > 0 {
+				// the method written as a function that takes the receiver as its first parameter
+				if funcAlias[f] == "" && !refFuncNames[fkey{rf.Pkg, "", f.Name()}] && sigStringFrom(sig, 1) == rf.Sig && recvTypeString(sig.Params().At(0).Type()) == rf.Recv {
+					cands = append(cands, f)
+					asFunc[f] = true
+				}
+				continue
+			}
 			if strings.TrimPrefix(rs, "*") != strings.TrimPrefix(rf.Recv, "*") {
 				continue
 			}
@@ -300,6 +370,9 @@ func resolveNames(pkgs []*packages.Package) {
 		}
 		if best != nil && (len(cands) == 1 || (bestScore >= 0.4 && bestScore > second)) {
 			funcAlias[best] = rf.Name
+			if asFunc[best] {
+				funcAliasRecv[best] = rf.Recv
+			}
 		}
 	}
 }
